@@ -12,7 +12,13 @@ OBLIGATIONS = [
        bound='one element per file, coordinates within +-2^16, widths/extensions/pitches up to 1000, 1-2 character strings',
        variants=[{'ELEM': 4, 'PT': t} for t in (-1, 0, 1, 2, 4)] + [{'ELEM': 5}, {'ELEM': 6}, {'ELEM': 7}] + [{'ELEM': 8, 'TARGET': t} for t in (0, 1)],
        unwind=45, timeout=900, mem_gb=14, wrap_files=True, nvec=8, flags=['--max-field-sensitivity-array-size', '400']),
+    Ob('aref_export', 'C03/aref_export.c', ['_ZNK5gdstk9Reference6to_gdsEP8_IO_FILEd'], model='ie', defines={'IE_BITS': 14, 'REAL_TOL': 1},
+       stubs=['_ZN5gdstk24is_multiple_of_pi_over_2EdRl', '_ZN5gdstk22gdsii_real_from_doubleEd'], rename={'strlen': 'my_strlen1'},
+       what='Reference::to_gds writes an array reference whose COLROW and three corner points denote exactly the repetition\'s instance positions, column pitch along the rotated x axis and row pitch along the rotated y axis (incl. the branch that exchanges columns and rows)',
+       bound='rectangular 2x3 and 3x2 lattices at rotation 0 and 90 degrees; regular lattice with v1 along y and v2 along x at rotation 0; pitches -6..6, origin -20..20; integer-exact model',
+       variants=[dict(KIND=1, COLS=c, ROWS=r, ROT90=z) for (c, r) in ((2, 3), (3, 2)) for z in (0, 1)] + [dict(KIND=2, COLS=2, ROWS=3, ROT90=0), dict(KIND=2, COLS=3, ROWS=1, ROT90=0)],
+       unwind=30, timeout=400, mem_gb=10, wrap_files=True, real_stub_syms=['cos', 'sin', 'sincos'], nvec=10),
 ]
-BOUNDS = ''
-OUTSIDE = ''
+BOUNDS = 'one element per file; coordinates within +-2^20 (reader) ; concrete MAG/ANGLE values; AREF export on axis-aligned lattices at 0 / 90 degrees'
+OUTSIDE = 'symbolic MAG / ANGLE values in whole-file queries (their real8 codec is C19); rotations other than multiples of 90 degrees in AREF export (normalisation inexact); records longer than 92 bytes (a reader that mis-handles record lengths >= 32768 is not distinguished); Raith records; RobustPath / non-simple path export (outlines)'
 ASSUMPTIONS = ['in-memory FILE model', 'libm contracts (exp2 of integers exact)', 'IEEE division uninterpreted (engine/env/ufdiv.h)']
